@@ -4,9 +4,31 @@ import json, os
 V = os.path.dirname(os.path.dirname(os.path.abspath(__file__)))
 R = "engine R (engine/): the crate's real generic View<T> code instantiated at a term-building scalar Sym, all comparison outcomes explored by re-execution, z3 decides every branch and obligation over the reals; solver models replayed exactly and natively at f64 before a VIOLATION is printed"
 TRUST = "rustc/cargo; z3 4.8.12; the Sym scalar shim (engine/src/sym.rs, validated against native f64 by `bin/check selftest`); the reference oracles in engine/src/props/*.rs (written from the property statements / cited papers); real arithmetic, not IEEE: rounding, overflow, -0.0 are outside the verdict"
+def C(tech, text, ref): return dict(tech=tech, text=text, ref=ref)
+SYM = "symbolic execution of the real generic code at T=Sym + SMT (z3, QF_LRA / QF_NRA via nlsat): "
 checks = {
- "C02": dict(tech="symbolic execution of the real generic code (T=Sym) + SMT (z3 QF_NRA/LRA) equivalence against batch reference definitions, all comparison paths, N<=3 (quick) / N<=5 (thorough), k=2N+2",
-             text="Bounded model checking of the real code: for every window length in the bound and every real-valued input stream of length 2N+2 (inputs are solver variables, every feasible comparison outcome is a path), each reported value equals the batch definition over exactly the last min(t,N) values. Stronger than any sampling inside the bound; says nothing beyond it or about f64 rounding.", ref="DESIGN.md §4 C02"),
+ "C02": C(SYM + "equivalence against batch reference definitions on every comparison path; N<=3 quick / N<=5 thorough, k=2N+2",
+          "Bounded model checking of the real code: for every window length in the bound and every real-valued input stream of length 2N+2 (inputs are solver variables, every feasible comparison outcome is a path), each reported value equals the batch definition over exactly the last min(t,N) values. Stronger than any sampling inside the bound; says nothing beyond it or about f64 rounding.", "DESIGN.md §4 C02"),
+ "C04": C(SYM + "hull / constant / monotone / affine-commutation / recurrence / kernel-weight obligations with symbolic a, b, c, increments; N<=3 quick / N<=6 thorough",
+          "Bounded model checking: for all real input streams within the bound, and all real a>0, b, c, the three moving averages stay in the hull of what they average, reproduce constants, are monotone, commute with a*x+b; Ema equals its recurrence on every path (including state==0), Alma equals the Gaussian-kernel mean with independently computed weights.", "DESIGN.md §4 C04"),
+ "C05": C(SYM + "Rsi/MyRSI against gains/losses over the N most recent changes, all tie/sign patterns as paths; corollaries (monotone windows, negation) as implications; N<=3 quick / N<=5 thorough, k=2N+3",
+          "Bounded model checking: every outcome of every `change > 0` comparison is a path, on each the output is proven equal to the reference ratio for all real inputs; includes spikes entering and leaving the window and flat stretches after volatile ones (in real arithmetic).", "DESIGN.md §4 C05"),
+ "C06": C(SYM + "CTI vs Pearson (polynomial form, sqrt axiomatised), NET vs Kendall tau over all pairs (pair orders are solver-decided branches), CoG formula; N in {3,4} quick / {3..6} thorough, k=N+2",
+          "Bounded model checking: for every real-valued window within the bound the three indicators equal their defining correlation / centre-of-gravity formula; corollaries (+-1 on monotone/linear windows, sign flip, order-only dependence, 0 on constants) are proven as implications.", "DESIGN.md §4 C06"),
+ "C07": C(SYM + "range obligations on every reported value of 20 bounded indicators, all comparison paths; N in {2,3} quick / {2..5} thorough, k=2N+2",
+          "Bounded model checking over the reals: for all inputs within the bound every documented range holds (Cauchy-Schwarz / Samuelson-type bounds are discharged by nlsat, ln/tanh facts by axioms). PFE's bound is a recorded known finding with a companion obligation that it leaves the range only where the C11 reference formula does. The 'few ulps in f64' clause is outside (reals).", "DESIGN.md §4 C07"),
+ "C08": C(SYM + "readiness monotonicity, documented first-output step, finiteness of every returned term (IEEE specials are modelled), never-ready inner view; every view, N<=3 quick / N<=6 thorough, plus seeded two-level chains",
+          "Bounded model checking: on every feasible path within the bound a view that has reported keeps reporting, first reports exactly when documented, and never returns NaN/Inf (division by a feasible zero, sqrt/ln out of domain and the crate's own finiteness assertions all surface as violations).", "DESIGN.md §4 C08"),
+ "C10": C(SYM + "three-run product (x, y, a*x+b*y) with symbolic a, b; DC obligations on a symbolic constant stream; N in {2,3,5} quick / {1..8,16} thorough; gamma concrete set + symbolic gamma",
+          "Bounded model checking: superposition is proven as an identity over all real streams and scalars within the bound (single path for the linear views; any value-dependent branch would appear as extra paths), plus exact/converging/vanishing DC response.", "DESIGN.md §4 C10"),
+ "C12": C(SYM + "two-run product on x and a*x+b / a*x / -x with symbolic a>0 and b; N=2 quick / {2,3,4} thorough, k=N+3",
+          "Bounded model checking: invariance / scaling / negation relations are proven for all scales and offsets (solver variables) and all inputs within the bound, on every comparison path of both instances. CTI's partial window is a recorded known finding (separate unit); the f64 'bit-exact for powers of two' clause is outside.", "DESIGN.md §4 C12"),
+ "C13": C(SYM + "WelfordRolling vs population mean/std (polynomial form), Drawdown vs max relative decline (peak by solver-decided comparisons), LnReturn by term identity; k = 8/5/6 quick, 16/7/12 thorough",
+          "Bounded model checking for streams up to the stated length: all orderings (new peaks, repeated peaks, monotone runs) are paths. 'Millions of values' and error growth are outside.", "DESIGN.md §4 C13"),
+ "C14": C(SYM + "scripted children emitting a fresh variable per step; output must be the identical term a_t op b_t (term identity => bit-identical in every float format); symbolic clip/constant",
+          "Bounded model checking (k=4/8): the combinators are shown to be pointwise and stateless — any dependence on an earlier child value, swapped or cached operand yields a different term and a solver witness. Readiness iff both children ready.", "DESIGN.md §4 C14"),
+ "C17": C(SYM + "twin / extra-last() / clone-and-diverge scripts over every view and seeded chains; obligations by term identity, all comparison paths; N=2 quick / {2,3} thorough",
+          "Bounded model checking: because the real code runs on terms, any hidden shared, global or lazily-filled state shows as differing terms between twin, clone and original; seed varies the last() pattern and clone position.", "DESIGN.md §4 C17"),
 }
 not_applicable = {
  "C16": "bound on accumulated IEEE-754 rounding error over 1e4..1e6-step streams: needs floating-point proofs; every installed back end (CBMC/Kani f64, z3/cvc5 QF_FP, rounding-aware reals in NRA) was probed on the smallest instance (Sma N=2, 5 values) and does not finish beyond toy float widths — see DESIGN.md §8",
